@@ -616,6 +616,13 @@ func (sh *shard) hlsSegmentNow(path string, age int, cred httpCred) (obs, string
 		if o.Status != 404 || time.Now().After(deadline) {
 			return o, uris[i]
 		}
+		// 404: only a moved window excuses it — a segment the stream still lists must be there
+		for _, u := range sh.segmentURIs(path) {
+			if u == uris[i] {
+				o.Note = "404 for a segment the stream's playlist still lists"
+				return o, uris[i]
+			}
+		}
 		time.Sleep(time.Millisecond)
 	}
 }
